@@ -10,6 +10,12 @@ import (
 	"pgregory.net/rapid"
 )
 
+// exitHarnessFault is the worker's exit status for trouble of the machinery itself. It is
+// deliberately not 2, which is what the Go runtime uses when the program under test dies
+// (unrecovered panic, stack exhaustion); check maps both to its own exit status 2 except where
+// a death of the code under test is what the property is about (C08, C11).
+const exitHarnessFault = 70
+
 type propDef struct {
 	gen    func(thorough bool) func(t *rapid.T) Case
 	decode func(raw json.RawMessage) (Case, error)
@@ -29,18 +35,18 @@ func dec[T any, PT interface {
 }
 
 var props = map[string]propDef{
-	"C01": {genC01, dec[CaseC01]()},
-	"C11": {genC11, dec[CaseC11]()},
-	"C05": {genC05, dec[CaseC05]()},
-	"C06": {genC06, dec[CaseC06]()},
-	"C08": {genC08, dec[CaseC08]()},
-	"C09": {genC09, dec[CaseC09]()},
-	"C12": {genC12, dec[CaseC12]()},
-	"C16": {genC16, dec[CaseC16]()},
-	"C18": {genC18, dec[CaseC18]()},
+	"C01":  {genC01, dec[CaseC01]()},
+	"C11":  {genC11, dec[CaseC11]()},
+	"C05":  {genC05, dec[CaseC05]()},
+	"C06":  {genC06, dec[CaseC06]()},
+	"C08":  {genC08, dec[CaseC08]()},
+	"C09":  {genC09, dec[CaseC09]()},
+	"C12":  {genC12, dec[CaseC12]()},
+	"C16":  {genC16, dec[CaseC16]()},
+	"C18":  {genC18, dec[CaseC18]()},
 	"REAL": {genReal, dec[CaseReal]()},
-	"C10": {genC10, dec[CaseC10]()},
-	"C17": {genC17, dec[CaseC17]()},
+	"C10":  {genC10, dec[CaseC10]()},
+	"C17":  {genC17, dec[CaseC17]()},
 }
 
 // TestHrsim is the single entry point of the worker binary. HRSIM_PROP selects
@@ -50,9 +56,9 @@ func TestHrsim(t *testing.T) {
 	def, ok := props[prop]
 	if !ok {
 		fmt.Fprintf(os.Stderr, "hrsim: unknown property %q\n", prop)
-		os.Exit(2)
+		os.Exit(exitHarnessFault)
 	}
-	code := 2
+	code := exitHarnessFault
 	curT = t
 	debug.SetMaxStack(64 << 20) // unbounded recursion kills the worker quickly instead of eating memory
 	func() {
@@ -60,7 +66,7 @@ func TestHrsim(t *testing.T) {
 			if r := recover(); r != nil {
 				if hf, ok := r.(harnessFault); ok {
 					fmt.Fprintln(os.Stderr, "hrsim: HARNESS FAULT:", hf.msg)
-					code = 2
+					code = exitHarnessFault
 					return
 				}
 				panic(r)
@@ -82,17 +88,17 @@ func replay(prop string, def propDef, path string) int {
 	b, err := os.ReadFile(path)
 	if err != nil {
 		fmt.Fprintln(os.Stderr, "hrsim:", err)
-		return 2
+		return exitHarnessFault
 	}
 	var v Violation
 	if err := json.Unmarshal(b, &v); err != nil {
 		fmt.Fprintln(os.Stderr, "hrsim: bad replay file:", err)
-		return 2
+		return exitHarnessFault
 	}
 	c, err := def.decode(v.Case)
 	if err != nil {
 		fmt.Fprintln(os.Stderr, "hrsim: bad case in replay file:", err)
-		return 2
+		return exitHarnessFault
 	}
 	ob := newObs()
 	fs := c.Eval(ob)
